@@ -4,6 +4,8 @@ harness/main.py — command line and verdict logic of ./check (DESIGN.md §8).
 from __future__ import annotations
 
 import argparse
+import faulthandler
+import signal
 import importlib
 import json
 import os
@@ -73,6 +75,10 @@ def selftest():
 
 
 def main(argv):
+    try:
+        faulthandler.register(signal.SIGUSR1, all_threads=True)
+    except Exception:  # noqa: BLE001
+        pass
     if argv and argv[0] == "--selftest":
         return selftest()
     ap = argparse.ArgumentParser()
@@ -121,7 +127,7 @@ def run_check(mod, pid, a, t0):
     if a.no_lean:
         lean = {"ok": True, "obligations": 0, "discharged": 0, "theorems": [], "problems": [], "checker_cmd": "skipped"}
     else:
-        lean = fw.lean_stage(pid, getattr(mod, "EXTRA_PROPS", ()))
+        lean = fw.lean_stage(pid, getattr(mod, "EXTRA_PROPS", ()), tier)
         if not os.path.exists(core.DRIVER):
             print("Lean driver missing (build failed)", file=sys.stderr)
             print(json.dumps(lean["problems"], indent=1)[:3000], file=sys.stderr)
@@ -226,6 +232,7 @@ def run_check(mod, pid, a, t0):
         "theorems": lean["theorems"],
         "axioms": lean.get("axioms", {}),
         "lean_problems": lean["problems"],
+        "leanchecker": lean.get("leanchecker", "not run in the quick tier"),
         "programs": acc["n"],
         "evaluations": acc["ops"],
         "spec_evaluations": acc["specs"],
